@@ -32,9 +32,10 @@ VARIABLES rows,     \* persisted vault: sequence of [s, v] rows in file order
           nops,     \* operations completed
           crashed,  \* label of the crash point, or "no"
           hist,     \* history variable: the operations so far (for replay)
-          vaultOk   \* FALSE while the persisted vault cannot be read
+          vaultOk,  \* FALSE while the persisted vault cannot be read
+          vname     \* folder name in the header of the persisted vault
 
-vars == <<rows, log, alog, snap, logOk, cur, base, nops, crashed, hist, vaultOk>>
+vars == <<rows, log, alog, snap, logOk, cur, base, nops, crashed, hist, vaultOk, vname>>
 
 Idle == [kind |-> "idle", s |-> None, v |-> None, pc |-> 0]
 NoSnap == <<"no">>
@@ -65,26 +66,34 @@ LiveEvents(m, S) ==
   IF S = {} THEN <<>>
   ELSE LET s == CHOOSE x \in S : TRUE IN
        (IF m[s] = None THEN <<>> ELSE <<Ev("create", s, m[s])>>) \o LiveEvents(m, S \ {s})
-Compacted(evs) == <<Ev("cv", None, None)>> \o LiveEvents(Reduce(evs), Slots)
+(* the folder name a log replays to: the creation event carries the name,  *)
+(* later name events replace it                                            *)
+RECURSIVE LogName(_)
+LogName(evs) == IF evs = <<>> THEN None
+                ELSE IF evs[Len(evs)].k \in {"cv", "name"} THEN evs[Len(evs)].v
+                ELSE LogName(SubSeq(evs, 1, Len(evs) - 1))
+Compacted(evs) == <<Ev("cv", None, LogName(evs))>> \o LiveEvents(Reduce(evs), Slots)
+(* what a merge appends: two events of another device (they rename the folder) *)
+MergedEvents == <<Ev("name", None, "n1"), Ev("name", None, "n2")>>
 
 Init ==
   /\ rows = <<>> /\ log = <<Ev("cv", None, None)>> /\ alog = <<>>
   /\ snap = NoSnap /\ logOk = TRUE /\ cur = Idle
   /\ base = [rows |-> <<>>, log |-> <<Ev("cv", None, None)>>, alog |-> <<>>]
-  /\ nops = 0 /\ crashed = "no" /\ hist = <<>> /\ vaultOk = TRUE
+  /\ nops = 0 /\ crashed = "no" /\ hist = <<>> /\ vaultOk = TRUE /\ vname = None
 
 Begin(kind, s, v) ==
   /\ cur = Idle /\ crashed = "no" /\ nops < MaxOps
   /\ CASE kind = "create" -> ~Has(s)
        [] kind = "update" -> Has(s) /\ VaultMap(rows)[s] # v
        [] kind = "delete" -> Has(s)
-       [] kind \in {"compact", "forcemerge"} -> s = None /\ v = None
-  /\ (kind \in {"delete", "compact", "forcemerge"} => v = None)
+       [] kind \in {"compact", "forcemerge", "merge"} -> s = None /\ v = None
+  /\ (kind \in {"delete", "compact", "forcemerge", "merge"} => v = None)
   /\ (kind \in {"create", "update"} => v \in Values)
   /\ cur' = [kind |-> kind, s |-> s, v |-> v, pc |-> 1]
   /\ base' = [rows |-> rows, log |-> log, alog |-> alog]
   /\ hist' = Append(hist, <<kind, s, v>>)
-  /\ UNCHANGED <<rows, log, alog, snap, logOk, nops, crashed, vaultOk>>
+  /\ UNCHANGED <<rows, log, alog, snap, logOk, nops, crashed, vaultOk, vname>>
 
 Finish ==
   /\ cur' = Idle /\ nops' = nops + 1
@@ -124,6 +133,12 @@ Step ==
        [] k \in {"update", "delete"} /\ pc = 4 ->
             /\ log' = Append(log, Ev(k, s, v))
             /\ Finish /\ UNCHANGED <<rows, alog, snap, logOk>>
+       [] k = "merge" /\ pc = 1 ->   \* merge_folder: a patch of two records from another device, one append
+            (* (one write of the encoded records / one sqlite transaction)            *)
+            /\ log' = log \o MergedEvents
+            /\ cur' = [cur EXCEPT !.pc = 2] /\ UNCHANGED <<rows, alog, snap, logOk, nops>>
+       [] k = "merge" /\ pc = 2 ->   \* the events are applied to the folder (vault header rewritten)
+            /\ Finish /\ UNCHANGED <<rows, log, alog, snap, logOk>>
        [] k = "forcemerge" /\ pc = 6 ->  \* folder_sync::force_merge: the rebuilt vault replaces the persisted one
             (* intended: one atomic rewrite (sqlite transaction / write then set_len); *)
             (* "VaultRewriteEmptiesFirst": the file is emptied before it is written    *)
@@ -164,13 +179,14 @@ Step ==
   /\ vaultOk' = IF cur.kind = "forcemerge" /\ cur.pc = 6 /\ Backend = "fs"
                     /\ "VaultRewriteEmptiesFirst" \in Deviations THEN FALSE
                  ELSE IF cur.kind = "forcemerge" /\ cur.pc = 7 THEN TRUE ELSE vaultOk
+  /\ vname' = IF cur.kind = "merge" /\ cur.pc = 2 THEN LogName(log) ELSE vname
   /\ UNCHANGED <<base, crashed, hist>>
 
 (* the process dies between two writes of the running operation *)
 Crash ==
   /\ cur # Idle /\ crashed = "no"
   /\ crashed' = cur.kind \o ":" \o ToString(cur.pc)
-  /\ UNCHANGED <<rows, log, alog, snap, logOk, cur, base, nops, hist, vaultOk>>
+  /\ UNCHANGED <<rows, log, alog, snap, logOk, cur, base, nops, hist, vaultOk, vname>>
 
 (* the process dies inside the append of one record to the file-system    *)
 (* event log (the step create:2 / update:4 / delete:4): some byte prefix   *)
@@ -182,7 +198,7 @@ Tear ==
      \/ cur.kind \in {"update", "delete"} /\ cur.pc = 4
   /\ crashed' = cur.kind \o ":torn"
   /\ logOk' = FALSE
-  /\ UNCHANGED <<rows, log, alog, snap, cur, base, nops, hist, vaultOk>>
+  /\ UNCHANGED <<rows, log, alog, snap, cur, base, nops, hist, vaultOk, vname>>
 Torn == crashed \in {"create:torn", "update:torn", "delete:torn"}
 
 (* the normal open path.  Intended: a partial record at the tail of a log  *)
@@ -194,12 +210,13 @@ Recover ==
   /\ rows' = IF "NoReconcile" \in Deviations \/ ~logOk THEN rows
              ELSE rows   \* intended: rebuilt from the log, see RecoveredVault
   /\ logOk' = IF Torn /\ "TornTailNoRecovery" \notin Deviations THEN TRUE ELSE logOk
-  /\ UNCHANGED <<log, alog, snap, base, nops, crashed, hist, vaultOk>>
+  /\ UNCHANGED <<log, alog, snap, base, nops, crashed, hist, vaultOk, vname>>
 
 Next == \/ \E k \in {"create", "update", "delete"}, s \in Slots, v \in Values \cup {None} :
               Begin(k, s, v)
         \/ Begin("compact", None, None)
         \/ Begin("forcemerge", None, None)
+        \/ Begin("merge", None, None)
         \/ Step \/ Crash \/ Tear \/ Recover
 
 Spec == Init /\ [][Next]_vars
@@ -220,5 +237,7 @@ LogBeforeOrAfter ==
                \/ \E e \in [k : {"create", "update", "delete"}, s : Slots, v : Values \cup {None}] :
                      log = Append(base.log, e)
                \/ log = Compacted(base.log)
-FolderEqReplayAfterRecover == (Recovered /\ logOk) => RecoveredVault = Reduce(log)
+               \/ log = base.log \o MergedEvents
+RecoveredName == IF "NoReconcile" \in Deviations THEN vname ELSE LogName(log)
+FolderEqReplayAfterRecover == (Recovered /\ logOk) => (RecoveredVault = Reduce(log) /\ RecoveredName = LogName(log))
 =============================================================================
